@@ -78,6 +78,14 @@ func VerifH_C03_targetDuration() {
 			want = 1
 		}
 		verifAssert("C03", "targetDuration-boundary-table", got == want)
+		// a playlist whose segments are all shorter than half a second: the target stays positive (the library's own
+		// decoder, hence its client, rejects TARGETDURATION:0 as "not set": C09)
+		got1 := targetDuration([]muxerSegment{&vDurSeg{d: d}})
+		want1 := int((d + 500*time.Millisecond) / time.Second)
+		if want1 < 1 {
+			want1 = 1
+		}
+		verifAssert("*", "targetDuration-positive-and-equal-to-summary", got1 == want1)
 	}
 	for _, d := range []time.Duration{1, 999999, 1000000, 1000001, 33333333, 199999999, 200000000, 200000001} {
 		p := &muxerPart{startDTS: 0, endDTS: d}
